@@ -87,7 +87,7 @@ def derive_dest(rng, snap):
             if m < 0.3: out.append(dict(e))
             elif m < 0.4: out.append(dict(e, b=[(x + 1) % 4 for x in b]))                      # stale: same size and mtime
             elif m < 0.5: out.append(dict(e, b=[(x + 1 + i % 2) % 4 for i, x in enumerate(b)], mtime=3000))
-            elif m < 0.58: out.append(dict(e, b=[7] * len(b), mtime=3000))
+            elif m < 0.58: out.append(dict(e, b=[7] * max(0, len(b) + rng.choice([0, 0, 1, 2, -1])), mtime=3000))  # old non-zero bytes, same or other size
             elif m < 0.66: out.append(dict(e, b=b[:rng.randint(0, max(0, len(b) - 1))], mtime=rng.choice([3000, e["mtime"]])))
             elif m < 0.74: out.append(dict(e, b=b + [rng.choice([0, 5])] * rng.randint(1, 3), mtime=rng.choice([3000, e["mtime"]])))
             elif m < 0.8:
@@ -123,6 +123,62 @@ def derive_dest(rng, snap):
         elif k == 1: out.append({"p": p, "k": "l", "t": 3})
         else: out.append({"p": p, "k": "f", "mtime": 3000, "mode": 384, "b": gen_bytes(rng, rng.randint(0, 4))})
     return out
+
+
+def gen_sibling_case(rng):
+    """Snapshot with a directory x (name 1) and siblings whose names are x + a byte below '/'
+    (2 `x y`, 3 `x!`, 4 `x-y`, 5 `x.z`) or above it (6 `x0`) as files and dirs, at depth 0-2;
+    destination = the snapshot (as a former restore left it) + an extra entry inside x that sorts
+    after x's snapshot children (+ sometimes one more mutation).  As paths x/... < x-y, as strings
+    x-y < x/...: a merge-walk that is not component-wise falls out of step here."""
+    prefix = rng.choice([(), (), (0,), (0, 7), (1,)])
+    ents = []
+    for i in range(len(prefix)):
+        ents.append({"p": prefix[:i + 1], "k": "d", "mtime": 1000, "mode": 493})
+    def add_cluster(pre):
+        x = pre + (1,)
+        if any(e["p"] == x for e in ents): return
+        ents.append({"p": x, "k": "d", "mtime": rng.choice([1000, 2000]), "mode": rng.choice(DMODES)})
+        for n in rng.sample([0, 1, 4, 6], rng.randint(0, 2)):
+            ents.append({"p": x + (n,), "k": "f", "mtime": 1000, "mode": 420, "b": gen_bytes(rng, rng.randint(0, 5))})
+        for n in [2, 3, 4, 5, 6]:
+            r = rng.random()
+            if r < 0.35: continue
+            if r < 0.7:
+                ents.append({"p": pre + (n,), "k": "f", "mtime": rng.choice([1000, 2000]), "mode": rng.choice(FMODES), "b": gen_bytes(rng, rng.randint(1, 6))})
+            else:
+                ents.append({"p": pre + (n,), "k": "d", "mtime": 2000, "mode": rng.choice(DMODES)})
+                for m in rng.sample([0, 1, 5, 7], rng.randint(1, 2)):
+                    ents.append({"p": pre + (n, m), "k": "f", "mtime": 1000, "mode": 420, "b": gen_bytes(rng, rng.randint(1, 5))})
+        return x
+    xs = [add_cluster(prefix)]
+    if rng.random() < 0.3 and len(prefix) < 2: xs.append(add_cluster(prefix + (1,)))
+    if rng.random() < 0.3: ents.append({"p": prefix + (7,), "k": "f", "mtime": 1000, "mode": 420, "b": [1]})
+    # parents first, siblings in any order: sort by depth-stable path order
+    ents.sort(key=lambda e: e["p"])
+    # a nested cluster may name a path twice (child of x / sibling of the inner x): keep the first,
+    # drop what would then hang below a non-directory
+    seen, uniq = {}, []
+    for e in ents:
+        if e["p"] in seen or (len(e["p"]) > 1 and seen.get(e["p"][:-1]) != "d"): continue
+        seen[e["p"]] = e["k"]; uniq.append(e)
+    ents = uniq
+    dest = [dict(e) for e in ents]
+    for x in xs:
+        if x is None: continue
+        p = x + (7,)
+        if seen.get(x) == "d" and not any(e["p"] == p for e in ents):
+            if rng.random() < 0.5: dest.append({"p": p, "k": "f", "mtime": 3000, "mode": 384, "b": [5]})
+            else:
+                dest.append({"p": p, "k": "d", "mtime": 3000, "mode": 488}); dest.append({"p": p + (0,), "k": "f", "mtime": 3000, "mode": 384, "b": [6, 6]})
+    if rng.random() < 0.3 and dest:
+        files = [e for e in dest if e["k"] == "f" and e["b"]]
+        if files:
+            e = rng.choice(files); e["b"] = [(b + 1) % 4 for b in e["b"]]; e["mtime"] = 3000
+    o = [1 if rng.random() < 0.7 else 0, rng.randint(0, 1), rng.randint(0, 1)]
+    chunk = rng.choice([1, 2, 3, 0])
+    return {"o": o, "chunk": chunk, "snap": ents, "dest": dest, "sibling_shape": True,
+            "line": " ".join(str(x) for x in ["model"] + o + [chunk] + toks_entries(ents) + toks_entries(dest))}
 
 
 def toks_entries(ents):
@@ -183,7 +239,8 @@ def model_oracle(c, state):
             # a file created through a dangling destination symlink (clash class, no delete)
             if not delete and clash and any(isinstance(x, str) for x in p): continue
             bad.append("unexpected entry %s" % (p,))
-    return bad, {"clash": bool(clash), "linkdiff": bool(linkdiff)}
+    kept = [p for p in linkdiff if not delete and post.get(p) == canon_entry(dest[p])]
+    return bad, {"clash": bool(clash), "linkdiff": bool(linkdiff), "symlink_kept": bool(kept)}
 
 
 def link_clash(c):
@@ -224,6 +281,12 @@ def run(ctx):
 
     # ---------------------------------------------------------------- A. hostile names, replayed
     hl = ["hostile %d %d" % (v, d) for v in range(10) for d in ((0, 1) if (ctx.thorough() or v in (1, 4)) else (0,))]
+    # escaped spellings of every hostile name (stored `\\x2e\\x2e`, `\\u002f...`, mixed) for file / dir / symlink nodes
+    if ctx.thorough():
+        hl += ["hostile2 %d %d %d %d" % (k, n, sp, d) for k in range(3) for n in range(9) for sp in range(5) for d in (0, 1)]
+    else:
+        hl += ["hostile2 %d %d 0 %d" % (k, n, rng.randint(0, 1)) for k in range(3) for n in range(9)]
+        hl += ["hostile2 %d %d %d %d" % (rng.randint(0, 2), rng.randint(0, 8), rng.randint(1, 4), rng.randint(0, 1)) for _ in range(24)]
     if ctx.replay:
         rp = json.load(open(ctx.replay)); hl = [rp["witness"]["case"]] if rp["witness"].get("case", "").startswith("hostile") else []
     for case, out in zip(hl, run_lines(impl, hl, "h")):
@@ -234,14 +297,15 @@ def run(ctx):
         if v["outside"]:
             viol.append(("restore of a tree with a hostile node name (%s) touched paths outside the destination: %s" % (v["desc"], ", ".join(x["p"] for x in v["outside"])),
                          {"case": case, "result": v, "how_to_replay": "echo '<case>' | .cache/target*/debug/c14 -"}, "hostile-node-name-escapes-destination"))
-        if len(samples) < 2: samples.append({"case": case, "outcome": v["outcome"], "outside": v["outside"], "desc": v["desc"]})
+        if len(samples) < 2 or (case.startswith("hostile2") and len(samples) < 4): samples.append({"case": case, "outcome": v["outcome"], "outside": v["outside"], "desc": v["desc"]})
         # the model's prediction for the code as extracted: a refused name is an error
-        if meta and meta["c_names"] and v["variant"] != 9 and v["outcome"] != "err":
+        h("hostile_escaped_spelling" if case.startswith("hostile2") else "hostile_literal")
+        if meta and meta["c_names"] and v.get("hostile_name") and v["outcome"] != "err":
             viol.append(("model/impl mismatch: the model (name check present) predicts an error for a hostile node name, the implementation returned " + v["outcome"], {"case": case, "result": v}, "__corr__"))
 
     # ---------------------------------------------------------------- B. model correspondence + oracle
     nmodel = 6000 if ctx.thorough() else 600
-    cases = [model_case(rng) for _ in range(nmodel)]
+    cases = [gen_sibling_case(rng) if rng.random() < 0.3 else model_case(rng) for _ in range(nmodel)]
     if ctx.replay:
         cases = []
         if rp["witness"].get("case", "").startswith("model"):
@@ -260,6 +324,7 @@ def run(ctx):
             if v["outcome"] in ("harness-error", "harness-panic"):
                 viol.append(("harness failed: " + v.get("msg", ""), {"case": c["line"]}, None)); continue
             h("model_impl_" + v["outcome"])
+            if c.get("sibling_shape"): h("model_sibling_shape")
             lc = link_clash(c) and not c["o"][0]
             if lc: h("model_skipped_symlink_followed")
             if not v["to_packs_ok"] or mreads != "reads_in_to_packs":
@@ -284,6 +349,10 @@ def run(ctx):
                 if c["dest"] and c["snap"]: nontriv.add(c["line"])
                 for k in cls:
                     if cls[k]: h("model_class_" + k)
+                if cls["symlink_kept"]:
+                    ctx.violation("existing symlink with another target kept", {"case": c["line"], "impl": v}, signature=SIG_LINK)
+                if cls["clash"] and not c["o"][0]:
+                    ctx.violation("destination entry of another type kept without delete; snapshot path not restored", {"case": c["line"], "impl": v}, signature=SIG_CLASH)
                 if bad:
                     viol.append(("restore result violates the property: " + bad[0], {"case": c["line"], "impl": v, "violated": bad[:5],
                                  "how_to_replay": "echo '<case>' | .cache/target*/debug/c14 -   (and build/C14/model for the model's answer)"}, "model-case-oracle"))
@@ -300,8 +369,14 @@ def run(ctx):
     ne2e = 1500 if ctx.thorough() else 80
     e2e = []
     for i in range(ne2e):
-        e2e.append("e2e %d %d %d %d %d %d %d %d" % (rng.randint(1, 10 ** 9), rng.randint(0, 1), rng.randint(0, 1), rng.randint(0, 1), rng.randint(0, 1),
-                                                   rng.choice([0, 1, 2, 2, 2, 2, 3]), rng.choice([0, 512, 1024, 2048]), rng.choice([0, 0, 1])))
+        if rng.random() < 0.35:
+            # sibling-name clusters (dir x + x-y, x.z, `x y`, x!, x0 ...), destination = snapshot (+ mutations) + extras
+            # inside x, delete mostly on
+            e2e.append("e2e %d %d %d %d %d %d %d %d 1" % (rng.randint(1, 10 ** 9), 1 if rng.random() < 0.7 else 0, rng.randint(0, 1), rng.randint(0, 1), rng.randint(0, 1),
+                                                         rng.choice([1, 1, 1, 2, 2, 3]), rng.choice([0, 512, 1024, 2048]), rng.choice([0, 0, 1])))
+        else:
+            e2e.append("e2e %d %d %d %d %d %d %d %d" % (rng.randint(1, 10 ** 9), rng.randint(0, 1), rng.randint(0, 1), rng.randint(0, 1), rng.randint(0, 1),
+                                                       rng.choice([0, 1, 2, 2, 2, 2, 3]), rng.choice([0, 512, 1024, 2048]), rng.choice([0, 0, 1])))
     corpus = os.path.join(ctx.pdir, "corpus.txt")
     if os.path.exists(corpus):
         e2e = [l.split("#")[0].strip() for l in open(corpus) if l.split("#")[0].strip().startswith("e2e")] + e2e
@@ -314,6 +389,7 @@ def run(ctx):
         if v["outcome"] in ("harness-error", "harness-panic"):
             viol.append(("harness failed: " + v.get("msg", ""), {"case": case}, None)); continue
         h("e2e_" + v["outcome"]); h("e2e_destkind_" + t[6])
+        if len(t) > 9 and t[9] == "1": h("e2e_sibling_shape")
         h("e2e_existing_files", v["existing_files"]); h("e2e_extras", v["extras"]); h("e2e_stale", v["stale"])
         if v["npre"] and v["nsnap"]: nontriv.add(case)
         clash_nodel = (not delete) and bool(v["pre_clash"])
@@ -348,12 +424,18 @@ def run(ctx):
         if len(samples) < 8 and v["npre"] > 3: samples.append({"case": case, "outcome": v["outcome"], "nsnap": v["nsnap"], "npre": v["npre"], "diffs": len(v["diffs"])})
 
     cov.update({"evaluations": evals, "distinct_nontrivial": len(nontriv),
-                "rule": "hostile: 10 crafted trees (.., absolute, separators; file/dir/symlink nodes) x delete; model cases: snapshots of <=6 entries over 6 names, depth<=3, files of 0-7 bytes in fixed chunks of 1-3 bytes (zero blobs frequent) x destinations derived by mutation (identical, stale, other bytes/mtime, shorter, longer, other type, missing, extras, unrelated tree) x delete/verify/sparse; e2e: seeded trees (<=18 entries, files <=12 KB, rabin or fixed 512-2048 chunks, symlinks, hard links) x destination kinds x option matrix incl. no_ownership; non-trivial = snapshot and destination both non-empty; distinct by case text",
+                "rule": "hostile: 10 crafted trees (.., absolute, separators; file/dir/symlink nodes) x delete, and 9 hostile names x file/dir/symlink node x 5 escaped spellings of the stored name (\\x2e, \\u002e, \\U0000002e, mixed, separators only); 30% of the model cases and 35% of the e2e trees contain a directory x with siblings x-y, x.z, `x y`, x!, x0 (files and dirs, depth 0-2) and a destination = snapshot + extras inside x; model cases: snapshots of <=6 entries over 6 names, depth<=3, files of 0-7 bytes in fixed chunks of 1-3 bytes (zero blobs frequent) x destinations derived by mutation (identical, stale, other bytes/mtime, shorter, longer, other type, missing, extras, unrelated tree) x delete/verify/sparse; e2e: seeded trees (<=18 entries, files <=12 KB, rabin or fixed 512-2048 chunks, symlinks, hard links) x destination kinds x option matrix incl. no_ownership; non-trivial = snapshot and destination both non-empty; distinct by case text",
                 "samples": samples, "distribution": hist, "traces_validated_against_impl": len(cases) + len(hl),
                 "disagreements_checked": len(mism) + len(viol), "model_impl_mismatches": len(mism), "oracle_violations": len([x for x in viol if x[2] != "__corr__"]),
                 "code_cfg": meta})
     real = [x for x in viol if x[2] != "__corr__"]
-    for what, wit, sig in real[:40]:
+    # report a few of every source (hostile / model / e2e), not only the first ones found
+    shown, per = [], {}
+    for x in real:
+        k = str(x[1].get("case", "")).split(" ")[0]
+        per[k] = per.get(k, 0) + 1
+        if per[k] <= 15: shown.append(x)
+    for what, wit, sig in shown:
         ctx.violation(what, wit, signature=sig)
     corr = [x for x in viol if x[2] == "__corr__"]
     if (mism or corr) and not real:
